@@ -597,4 +597,40 @@ theorem build_spec_all (fuel : Nat) : NodeSpec fuel ∧ EntriesSpec fuel := by
     · intro kvs hf; omega
   | succ f ih => exact ⟨nodeSpec_step f ih.1 ih.2, entriesSpec_step f ih.1 ih.2⟩
 
+/-! ### the top-level statement -/
+
+/-- the inputs of `Build`: keys strictly increasing (sorted and distinct), every byte `< 256`, at
+least one key, and not the key set {""} (for which the Go code panics, see `Neg`). -/
+structure Buildable (kvs : List KV) : Prop where
+  sorted : sortedKeys kvs = true
+  bytes : bytesOK kvs = true
+  nonempty : kvs ≠ []
+  notOnlyEmptyKey : ∀ v, kvs ≠ [([], v)]
+
+theorem Buildable.shape {kvs : List KV} (h : Buildable kvs) :
+    2 ≤ kvs.length ∨ ∃ k v, kvs = [(k, v)] ∧ k ≠ [] := by
+  match kvs, h with
+  | [], h => exact absurd rfl h.nonempty
+  | [(k, v)], h =>
+    right
+    refine ⟨k, v, rfl, ?_⟩
+    intro e; subst e
+    exact h.notOnlyEmptyKey v rfl
+  | _ :: _ :: _, _ => left; simp
+
+/-- everything the build specification gives for a buildable input -/
+theorem build_spec {kvs : List KV} (h : Buildable kvs) :
+    ∃ t, build kvs = some t ∧ iter t = kvs ∧ WFNode t ∧
+      ((∀ v, kvs ≠ [([255], v)]) → NoSingleFF t.entries) := by
+  obtain ⟨n, h1, h2, h3, h4, _⟩ := (build_spec_all (2 * kvSize kvs + 2)).1 [] kvs (Nat.le_refl _)
+    ((sortedKeys_iff kvs).1 h.sorted) ((bytesOK_iff kvs).1 h.bytes) h.shape
+  refine ⟨n, h1, ?_, h3, h4⟩
+  have := h2 []
+  simp only [List.nil_append] at this
+  rw [iter, this]
+  induction kvs with
+  | nil => rfl
+  | cons x xs ih => simp
+
+
 end LinVerif.Lemmas.C20
